@@ -125,6 +125,12 @@ pub fn run(ctx: &Ctx, out: &mut CaseOut) {
                         let d = disp(&a);
                         if &d != bd {
                             let asub = is_slg && slg_subsumed_answers(&mut slg_s);
+                            if std::env::var_os("VERIF_TRACE").is_some() && is_slg {
+                                eprintln!("[mismatch] base={} permuted={} asub={} bsub={}", bd, d, asub, bsub);
+                                for t in slg_s.verif_tables() {
+                                    eprintln!("[table] {} co={} fl={} answers={} amb={} cond={} strands={} delayed={:?}", t.goal_body, t.coinductive, t.floundered, t.answers, t.ambiguous_answers, t.answers_with_delayed_subgoals, t.strands, t.delayed_goals);
+                                }
+                            }
                             let order_sig = if is_slg { slg_order_signature(&d, asub, bd, *bsub) } else { None };
                             let is_f12 = solver_name(&choice) == "slg" && ((trivial_unique(&a) && ba.as_ref().map_or(false, |s| s.is_ambig())) || (trivial_unique(ba) && a.as_ref().map_or(false, |s| s.is_ambig())));
                             // F11 loses answers depending on the order in which the cycle is entered; the original program may
